@@ -29,6 +29,10 @@ import os
 _MAXN = 3 if os.environ.get('VERIF_TIER', 'quick') == 'thorough' else 2
 SHAPES = [s for n in range(0, _MAXN + 1) for s in itertools.product((1, 2), repeat=n)]
 SHAPE_CASES = [('shape %s' % (list(s),), {'self': segment_t(s)}) for s in SHAPES]
+# Segment.set inlines the designator parser and pads: its three-element shapes cost over an hour of path exploration in the thorough
+# tier, so there it gets the shapes of the quick tier plus the two uniform three-element ones
+SET_SHAPES = [s for s in SHAPES if len(s) <= 2 or len(set(s)) == 1]
+SET_SHAPE_CASES = [('shape %s' % (list(s),), {'self': segment_t(s)}) for s in SET_SHAPES]
 
 INL = ['pyx12.path.X12Path.__init__']
 
@@ -47,7 +51,7 @@ contract('pyx12.segment.Segment.get_value',
          serves=['C17', 'C10'])
 
 contract('pyx12.segment.Segment.set',
-         type_cases=SHAPE_CASES,
+         type_cases=SET_SHAPE_CASES,
          params={'ref_des': Str, 'val': Str},
          split_len={'ref_des': 7},
          returns=NoneT,
